@@ -63,7 +63,16 @@ impl World {
                     let id = op["id"].as_u64().unwrap();
                     let len = op["len"].as_u64().unwrap() as usize;
                     let key = op["key"].as_u64().unwrap_or(0);
-                    let off = op["off"].as_u64().unwrap_or(0);
+                    // "off":"auto" continues the payload pattern at the stream's current send offset
+                    let off = if op["off"] == "auto" {
+                        pre["streams"]["send"]
+                            .as_array()
+                            .and_then(|a| a.iter().find(|s| s["id"] == id))
+                            .and_then(|s| s["off"].as_u64())
+                            .unwrap_or(0)
+                    } else {
+                        op["off"].as_u64().unwrap_or(0)
+                    };
                     extra["id"] = json!(id);
                     extra["len"] = json!(len);
                     extra["off"] = json!(off);
